@@ -16,9 +16,9 @@ func init() { Scenarios["connerr"] = connerrScenario }
 // ConnErrCases is the size of the enumerated space of the connerr scenario:
 // operation x version configuration x fault x follow-up operation.
 const (
-	ceOps     = 11
-	ceCfgs    = 3
-	ceFollow  = 11
+	ceOps    = 11
+	ceCfgs   = 3
+	ceFollow = 11
 )
 
 var ceCodes = []int16{ErrNotLeaderForPartition, ErrLeaderNotAvailable, ErrRequestTimedOut, ErrOffsetOutOfRange, ErrUnknownTopicOrPartition, ErrNotEnoughReplicas, ErrTopicAuthorizationFailed, 999}
@@ -31,13 +31,15 @@ var ceFraming = []string{"cut-mid", "garbage-size", "wrong-correlation-id"}
 // top-level error_code of v7+; metadata: partition-level inside the topic)
 const ceFields = 2
 
-func ConnErrCases() int { return ceOps * ceCfgs * (len(ceCodes) + len(ceFraming)) * ceFollow * ceFields }
+func ConnErrCases() int {
+	return ceOps * ceCfgs * (len(ceCodes) + len(ceFraming)) * ceFollow * ceFields
+}
 
 type ceEnv struct {
-	s    *Sim
-	cl   *Cluster
-	conn *kafka.Conn
-	p    *Partition
+	s     *Sim
+	cl    *Cluster
+	conn  *kafka.Conn
+	p     *Partition
 	topic string
 }
 
